@@ -249,6 +249,9 @@ def _week(ctx, mir, sf) -> None:
     can2 = Canon({"ordinal": "ORD", "year": "Y"})
     seen = set()
     wrap_conds = set()
+    ord_param = (f2.debug.get("ordinal") or [None])[0]
+    ord_local = next((s_.dest for b_ in f2.blocks.values() for s_ in b_.stmts if s_.op == "use" and s_.args and s_.args[0] == ord_param
+                      and s_.dest and re.fullmatch(r"_\d+", s_.dest) and s_.dest in {x for v in f2.debug.values() for x in v}), None)
     for p in sym.run(0, mirsym.NEVER):
         ret = p.state.get("_0")
         if not (isinstance(ret, ast.Call) and un(ret.func) == "Ok" and isinstance(ret.args[0], ast.Tuple)):
@@ -258,12 +261,15 @@ def _week(ctx, mir, sf) -> None:
             if cb_ and "MONTHS_OFFSETS" not in un(cb_[0]) and "allow_out_of_bounds" not in un(cb_[0]) and "discriminant" not in un(cb_[0]):
                 wrap_conds.add(can2.cond(cb_[0], True)[0])
         y = can2.s(ret.args[0].elts[0])
-        dd = can2.s(ret.args[0].elts[2])
-        i_l = f2.local("i") if "i" in f2.debug else None
-        tbl = ast.parse("MONTHS_OFFSETS[is_leap(YY)][i - 1]", mode="eval").body
-        yy = ret.args[0].elts[0]
-        tbl.value.slice.args[0] = yy
-        base = can2.s(ast.BinOp(ret.args[0].elts[2], ast.Add(), tbl))
+        # the ordinal the month search works on: the final value of the local that starts as a copy of the `ordinal` parameter
+        # (whatever the search that follows looks like)
+        if ord_local is not None and ord_local in p.state and isinstance(p.state[ord_local], ast.AST):
+            base = can2.s(p.state[ord_local])
+        else:
+            tbl = ast.parse("MONTHS_OFFSETS[is_leap(YY)][i - 1]", mode="eval").body
+            yy = ret.args[0].elts[0]
+            tbl.value.slice.args[0] = yy
+            base = can2.s(ast.BinOp(ret.args[0].elts[2], ast.Add(), tbl))
         seen.add((y, base))
     want_s = {("Y", "ORD"), (E(can2, "Y - 1"), E(can2, "ORD + days_in_year(Y - 1)")),
               (E(can2, "Y + 1"), E(can2, "ORD - days_in_year(Y)"))}
